@@ -291,7 +291,7 @@ def LeafOK (env : Env) : E → Prop
 theorem binop_not_postfix (k : String) (p : Nat) (h : binPrec k = some p) : k ∉ postfixStarters := by
   intro hk
   simp only [postfixStarters, List.mem_cons, List.mem_nil_iff, or_false] at hk
-  rcases hk with rfl | rfl | rfl | rfl | rfl | rfl <;> simp [binPrec, binaryPrecedence] at h
+  rcases hk with rfl | rfl | rfl | rfl | rfl | rfl | rfl <;> simp [binPrec, binaryPrecedence] at h
 
 theorem denotes_tks (f0 : Nat) : ∀ (n : Nat) (l : List Tk),
     Denotes (Op env) FollowOp f0 n (l.map fun t => PT.tk t.1 t.2) l
@@ -403,6 +403,27 @@ theorem seesT_init (toks : List Tk) :
       simp only [List.mem_singleton] at hsc
       subst hsc; simp at he
     · intro n hn; cases hn
+  · intro j t hj; simp [initState] at hj
+
+/-- a start state in which `T` is a typedef name of the file scope: the raw tokens `rt` are seen
+with every identifier spelled `T` classified as `TYPEID` -/
+theorem seesT_typedef1 (T : String) (rt : List Tk) :
+    SeesT ⟨fun n => n == T, rt.map (clsF fun n => n == T)⟩
+      { initState (rt.map (fun t => SEv.tok t.1 t.2) ++ [.eof]) with scopes := [[(T, true)]] }
+      (rt.map (clsF fun n => n == T)) := by
+  refine ⟨⟨[], rt, false, by simp [initState], rfl, by simp, by simp, ?_, by intro _; rfl⟩, by simp [initState], ?_,
+    ⟨[], by simp [initState], by simp⟩⟩
+  · show Agrees (fun n => n == T) [[(T, true)]]
+    refine ⟨?_, [], [(T, true)], rfl, ?_⟩
+    · intro sc hsc e he
+      simp only [List.mem_singleton] at hsc
+      subst hsc
+      simp only [List.mem_singleton] at he
+      subst he; simp
+    · intro n hn
+      have : n = T := by simpa using hn
+      subst this
+      simp [scopeLookup]
   · intro j t hj; simp [initState] at hj
 
 /-! ## redundant parentheses change nothing but coordinates -/
